@@ -270,3 +270,14 @@ Theorem gen_zeroed_unwrap_all E T n :
   Gen.Alloc.zeroed_slice_box E T n = (r <- Gen.Alloc.try_zeroed_slice_box E T n ;; unwrap_unit r) /\
   Gen.Alloc.zeroed_vec E T n = (r <- Gen.Alloc.try_zeroed_vec E T n ;; unwrap_unit r).
 Proof. exact (conj (gen_zeroed_box E T) (conj (gen_zeroed_slice_box E T n) (gen_zeroed_vec E T n))). Qed.
+
+(* Deref / DerefMut expose exactly the recorded number of bytes at the block's own address; the raw
+   parts are the pointer and the layout, and putting them back together gives the same BoxBytes *)
+Theorem gen_box_bytes_views ENV b p l :
+  Gen.Alloc.box_bytes_deref ENV b = Ret (mkSlice (mkPtr (bb_ptr b) (l_size (bb_layout b))) (l_size (bb_layout b))) /\
+  Gen.Alloc.box_bytes_deref_mut ENV b = Ret (mkSlice (mkPtr (bb_ptr b) (l_size (bb_layout b))) (l_size (bb_layout b))) /\
+  Gen.Alloc.box_bytes_layout ENV b = Ret (bb_layout b) /\
+  Gen.Alloc.box_bytes_into_raw_parts ENV b = Ret (bb_ptr b, bb_layout b) /\
+  Gen.Alloc.box_bytes_from_raw_parts ENV p l = Ret (mkBB p l) /\
+  (x <- Gen.Alloc.box_bytes_into_raw_parts ENV b ;; Gen.Alloc.box_bytes_from_raw_parts ENV (fst x) (snd x)) = Ret b.
+Proof. destruct b as [bp bl]. repeat split; reflexivity. Qed.
